@@ -181,3 +181,50 @@ def c03_delta_empty_page(case, out):
                     all(v is None for v in rg["data"][name]):
                 return out["sig"].startswith(("crash", "read_raised", "value", "missing", "hang"))
     return False
+
+
+@predicate
+def c15_v2_nested(case, out):
+    has_v2 = any(p.get("version", 1) == 2 for rg in case["plan"]["row_groups"] for cp in rg.get("chunks", {}).values()
+                 for p in cp.get("pages", []))
+    if not has_v2:
+        return False
+    sig = out["sig"]
+    return sig.startswith(("read_raised|", "row_type|", "list_length|", "element|", "null_row|", "map_", "length|")) and "v2" in sig
+
+
+@predicate
+def c15_legacy_2level(case, out):
+    return any(c.get("layout", "3level") != "3level" for c in case["cols"]) and out["sig"].startswith(("row_type|", "null_row|", "read_raised|", "list_length|", "element|"))
+
+
+def _continuation_of_nulls(case):
+    """Does some v1 page start with the continuation of a row that, up to the next row start,
+    holds no value (only null elements)?"""
+    from vf.refpq import reader, writer
+    try:
+        pd_ = reader.read(writer.write(case["plan"]))
+    except Exception:
+        return False
+    for rg in pd_.row_groups:
+        for ch in rg.chunks.values():
+            pages = [p for p in ch.pages if p.kind in ("v1", "v2")]
+            for i, p in enumerate(pages):
+                if i == 0 or not p.rep_levels or p.rep_levels[0] == 0:
+                    continue
+                k = 0
+                while k < len(p.rep_levels) and p.rep_levels[k] != 0:
+                    k += 1
+                if all(d < ch.leaf.max_def for d in (p.def_levels or [])[:k]):
+                    return True
+    return False
+
+
+@predicate
+def c15_continuation_nulls(case, out):
+    """cencoding._assemble_objects extends the previous page's last row only `if vali > 0`: a continuation
+    made of null elements only is dropped from its row (and leaks into the next one)."""
+    sig = out["sig"]
+    if not sig.startswith(("list_length|", "element|", "map_size|", "map_value|", "map_key|", "null_row|", "row_type|")):
+        return False
+    return _continuation_of_nulls(case)
